@@ -11,7 +11,7 @@ from .. import common
 from ..gen_values import (DIALECTS, gen_module, gen_config, make_encoder,
                           IDENT)
 from ..normalise import clone, is_container
-from ..scanner import scan, value_text, elements, NUM_RE
+from ..scanner import scan, value_text, elements, brackets, NUM_RE
 from .c15 import spec_allowed
 
 CHECK = "C12"
@@ -112,7 +112,7 @@ def check_text(rec, dialect, cfg, module_before, module_after, text, wit):
                 walk(v, level + 1)
                 expected.append(("end", level, k, type(v).__name__, None))
             else:
-                expected.append(("assign", level, k, None, longest))
+                expected.append(("assign", level, k, v, longest))
 
     walk(module_before, 0)
     body = stmts[:-1]
@@ -212,6 +212,37 @@ def check_text(rec, dialect, cfg, module_before, module_after, text, wit):
                     ran("units-after-number")
                     if prev is None or not NUM_RE.match(prev):
                         bad("units-not-after-number", f"{prev!r} <{txt}>")
+        v = cls   # (assignments carry their value in this slot)
+        if dialect in ("ODL", "PDS3") and type(v) is str and " " in v.strip(" ") \
+                and v == v.strip(" ") and "  " not in v \
+                and v.isprintable() and v.isascii() and "'" not in v and '"' not in v \
+                and 0 < len(v) <= width / 2 \
+                and (dialect == "ODL" or cfg.get("symbol_single_quote", True)):
+            # a short one-line text with an inner blank is an ODL symbol string:
+            # written between apostrophes (unless PDS3's option says otherwise)
+            ran("symbol-single-quoted")
+            if not "".join(vt).lstrip().startswith("'"):
+                bad("symbol-not-single-quoted", f"line {s.lineno}: {s.lines[0]!r}")
+        if dialect in ("ODL", "PDS3") and any(c in "({" for c in "".join(vt)):
+            # set / sequence restrictions of the ODL family (encode_sequence,
+            # encode_set): no empty sequence, at most two dimensions, sets
+            # hold scalars only; PDS3 sets hold no real numbers or dates
+            ran("odl-set-sequence-form")
+            for ev in brackets(vt):
+                if ev[0] == "close" and ev[1] == ")" and ev[3] == 0:
+                    bad("odl-empty-sequence", f"line {s.lineno}: {s.lines[0]!r}")
+                elif ev[0] == "open" and ev[1] == "(" and ev[2] > 2:
+                    bad("odl-sequence-deeper-than-two", f"line {s.lineno}: {s.lines[0]!r}")
+                elif ev[0] == "open" and "{" in ev[3]:
+                    bad("odl-set-holds-non-scalar", f"line {s.lineno}: {s.lines[0]!r}")
+                elif ev[0] == "member" and dialect == "PDS3" and ev[3].endswith("{"):
+                    if ev[1] == "units" or (ev[1] == "bare" and REAL_OR_DATE.match(ev[2])):
+                        bad("pds3-set-holds-real-date-or-units",
+                            f"line {s.lineno}: {ev[2]!r} in {s.lines[0]!r}")
+
+
+REAL_OR_DATE = re.compile(r"^[-+]?(\d+\.\d*|\.\d+|\d+[eE][-+]?\d+|\d+\.?\d*[eE][-+]?\d+)$"
+                          r"|^\d{4}-\d{2,3}(-\d{2})?(T.*)?$|^\d{1,2}:\d{2}.*$")
 
 
 def _ends_in_quote(s):
@@ -222,6 +253,13 @@ def _ends_in_quote(s):
 def case(rec, pvl, dialect, key):
     rng = random.Random(key)
     cfg = gen_config(rng, dialect)
+    if dialect == "PDS3" and rng.random() < 0.3:
+        # leave PDS3-specific options to their documented defaults
+        for k in ("symbol_single_quote", "time_trailing_z", "tab_replace",
+                  "convert_group_to_object"):
+            if rng.random() < 0.6:
+                cfg.pop(k, None)
+        rec.count("pds3_options_left_to_defaults")
     gm = gen_module(rng, dialect, cfg["width"], pvl.collections,
                     plain_names_only=True)
     if dialect in ("ODL", "PDS3") and rng.random() < 0.15:
@@ -262,6 +300,7 @@ def shard(i, n, tier, seed, rec, hb):
 def finish_kwargs(rec, tier):
     req = [f"texts[{d}]" for d in DIALECTS] + [
         "rule[charset]", "rule[line-ends]", "rule[final-line]", "rule[structure]",
+        "rule[symbol-single-quoted]", "rule[odl-set-sequence-form]",
         "rule[indentation]", "rule[alignment]", "rule[delimiter]",
         "rule[odl-name-form]", "rule[symbol-on-one-line]",
         "rule[units-after-number]", "rule[pds3-no-tab]",
